@@ -196,7 +196,7 @@ def run(chk: core.Check):
         seen = set()
         cases = []
         for e in res.emits:
-            key = repr(e["cs"])
+            key = tlc.canon(e["cs"])
             if key not in seen:
                 seen.add(key)
                 cases.append(e)
